@@ -323,4 +323,62 @@ PROPS = {
         "assumptions": ["http::Uri parsing/rendering (oracle)", "rand::thread_rng yields distinct 256-bit values"],
         "trusted_base": COMMON_TB + ["modelled, not verified: http_uri_ext.rs append_query_parameter, cup_ecdsa.rs decorate_request, request_builder.rs build"],
     },
+    "C17": {
+        "run": ["EvalC17"], "functional": True,
+        "n": {"quick": 120, "thorough": 1500},
+        "level_text": "The mock server is modelled as Model/MockServer.v (request JSON read as a serde_json::Value with last-wins keys, the per-app assertions and reply assembly of handle_omaha_request "
+                      "in request order, json! as BTreeMap insertion so the printed reply has sorted keys, make_etag in its REPAIRED reading: query pairs of the origin-form URI by form_urlencoded rules, "
+                      "the first pair named cup2key wherever it stands, key lookup latest-then-historical first match, digest over SHA-256(request), SHA-256(reply) and the raw cup2key value, "
+                      "hex(sig) ':' hex(request hash); etag_override, require_cup, serde decoding of the set_responses body) and proved against the client's own models: Request.v (encoder), "
+                      "Response.v (parse_response), Cup.v (verify).  Theorems, for every builder state / configuration / URI and ARBITRARY sha256, sign, DER and ECDSA functions: C17_reply_parses "
+                      "(a served request gets a reply that parse_response maps to exactly expected_response: the requested apps in request order with the configured decision, or a parse failure iff a requested "
+                      "check is configured InvalidResponse), C17_expected_apps / _request_order / _decisions / _invalid_response_refused / _otherwise_accepted (what expected_response says), C17_request_wellformed, "
+                      "C17_decoration_found (the client's append_query_parameter decoration is found for any service URL path and query), C17_etag_verifies + C17_etag_shape + C17_key_lookup, "
+                      "C17_etag_only_this_exchange (refused for any other request body, reply body, nonce or key id, under C01's idealisations), C17_no_cup_no_etag, C17_unknown_key_no_etag, C17_no_etag_refused, "
+                      "C17_forced_etag, C17_reconfigure (+ _keeps_rest, _refused, _reconfigure_reply_parses), C17_d5_class.  Tied to the code by whole histories against the real in-process server: "
+                      "requests built by the real RequestBuilder and StandardCupv2Handler, the real handle_request under catch_unwind, and every reply pushed through the real verify_response and "
+                      "parse_json_response and offered to every other exchange of the history; the real state machine (oneshot_check) is driven against the in-process server for every configured kind, "
+                      "with and without CUP, and with a forced ETag.",
+        "level_note": "Proved for the model, unbounded.  Model = code is sampled.  The model is the repaired make_etag: on the pinned tree the code panics on the class d5_class (service URL with a path and no cup2key, "
+                      "or any query parameter before cup2key - which is every decorated service URL with a query, because the client appends); such inputs are reported with code 5 until lib.rs is repaired "
+                      "(VERIF_C17_SKIP_D5=1 keeps the generator away from the class).  Key ids are pairwise distinct in the generator (DESIGN.md section 6).  Not modelled: the f64 overflow check of float literals "
+                      "in a request body (the client writes none), lossy UTF-8 decoding of percent-escapes above 0x7F in the query (not generated).  A ping-only request (no updatecheck, no event) makes the mock "
+                      "panic by design (lib.rs:641) and is outside the theorem's hypothesis; the state machine sends such requests only while waiting for a reboot.",
+        "diff_meaning": "code 1: the real server (or the real client on the server's reply) did something else than the models on this history: another body, status, ETag, Content-Length, a panic where the model "
+                        "replies or a reply where it panics, another verify_response verdict, another parse result; code 2: a clause of the property fails on the observations alone: the ETag of an exchange was "
+                        "accepted for another exchange, a served and CUP-decorated request under a key pair both sides hold was not accepted, a served request was not parsed to the configured decisions, "
+                        "or the state machine did not reach the configured outcome; code 5: the server panicked in make_etag on an input of class D5 where the repaired model replies.",
+        "rule": "fixed: the real state machine against the in-process server for each of the 5 configured kinds with and without CUP, and forced ETag with/without CUP (13 runs); "
+                "n random histories: 1-4 apps (ids incl. non-ASCII / JSON-escaped text), response map with every kind, version / check / cohort assertions (1 in 4 histories also with mismatching ones), "
+                "1-3 server keys and client key sets whose latest is the server's latest, a historical one, unknown to the server, or another pair under the same id, no client keys, etag_override (plain, quoted), "
+                "require_cup; 2-5 steps each: update checks of all configured apps in any order with pings and events, event reports of subsets, refused requests (proper subset checked, unknown app, ping only), "
+                "reconfigurations (new kinds for a subset, serde variants: null/absent options, object-form enum, unknown fields; 5 odd and 10 broken bodies); 12 service URLs (no path, '/', deep paths, "
+                "percent-escapes, queries with one or several parameters, empty query, escapes and '+' in the query, names that share a prefix with cup2key); all four request-parameter flags, request/session ids; "
+                "every reply is offered to every other CUP exchange of its history.  distinct = distinct input; non-trivial = CUP used or more than one step.",
+        "assumptions": ["sha2, p256 (RFC 6979 deterministic signing, DER), hex, url 1.7 form_urlencoded and http::Uri behave as documented; their verdicts enter the models as lookup tables / printed URIs",
+                        "key ids pairwise distinct within a key set (DESIGN.md section 6)",
+                        "C17_etag_verifies: the client's public key verifies what the server's secret key signs (premise), signatures and digests are byte strings",
+                        "C17_etag_only_this_exchange: no SHA-256 collision on the inputs compared, digests of a fixed length, a signature verifies for at most one message under the client's keys (premises)"],
+        "trusted_base": COMMON_TB + ["modelled, not verified: mock-omaha-server/src/lib.rs (make_etag, handle_request, handle_set_responses, handle_omaha_request, PrivateKeys::find), serde_json::Value / json! / to_vec, "
+                                     "serde derive for ResponseAndMetadata, url::form_urlencoded::parse, http_uri_ext.rs append_query_parameter; on the client side the models of C01, C15, C16",
+                                     "abstract in the proofs: SHA-256, ECDSA P-256 signing and verification, DER (RustCrypto crates, outside the repository)"],
+    },
+    "C11": {
+        "run": ["EvalProps"], "functional": False,
+        "n": {"quick": 300, "thorough": 4000},
+        "level_text": "Theorems: each of the three places where the model answers a request (in-check arrival, queue drained on entering a check, the waits) answers exactly the requests it takes, "
+                      "once each, with the kind the property demands; a queued request wakes a waiting machine before any timer; dropped handles leave the timers in charge.  Every implementation trace is "
+                      "run through the executable monitor step11 (exactly one reply per request; Started/Throttled only for the oldest outstanding request right after the matching check-allowed "
+                      "question and answer; AlreadyRunning only during a check or reboot wait; on-demand upgrade of the reboot question; a positive reboot answer is followed by the reboot) and compared "
+                      "with the model.  Requests are injected after arbitrary events (attempts, reports, installs, progress, reboot waits, pings) and at every wait; handle drops and requests on a "
+                      "dead machine (must fail with StateMachineGone at once) are exercised by the harness.",
+        "level_note": "PARTIAL at the level of theorems: 'every request of every history is answered exactly once and truthfully' is a run-time monitor + trace equality, not yet a theorem about the "
+                      "model (it needs an environment-aware invariant linking the monitor's outstanding set to the model's request queue).  The real select!'s random branch order and futures-channel "
+                      "internals are not modelled; the racy point right after the check's result event is excluded from the deterministic scripts.",
+        "diff_meaning": "The control-request monitor rejects the implementation's trace, a request hung / was answered on a dead machine, or the request/reply/policy/state projection differs from the model's.",
+        "rule": "random scripted environments, 90% with 1-4 requests injected after arbitrary events, control requests at waits, 15% dropping all handles; distinct = distinct implementation trace; "
+                "non-trivial = at least one request or completed check",
+        "assumptions": ["harness trait implementations follow the trait contracts", "futures mpsc channel is FIFO"],
+        "trusted_base": COMMON_TB + ["modelled, not verified: state_machine.rs run / wait_for_reboot select loops, ControlHandle"],
+    },
 }
